@@ -510,7 +510,7 @@ def run_assembly(case, acc):
                 break
             hist.append(dict(asm.state))
             n += 1
-    except AssertionError as exc:
+    except (AssertionError, ValueError) as exc:
         if may_refuse:
             acc.ev(dict(c=case), nontrivial=True)
             acc.count('colliding_names_refused')
